@@ -52,7 +52,7 @@ def reduced_menu():
     return ops
 
 
-LADDER = (8, 16, 23, 24, 25, 32, 64, 128, 255, 256, 300)
+LADDER = (8, 16, 23, 24, 25, 32, 64, 128, 255, 256, 300, 1025, 65537)
 
 
 def ladder_histories():
@@ -71,7 +71,43 @@ def ladder_histories():
                     out.append(pre + [(m, s, L + 3, 1)])
                     out.append(pre + [(m, s, L - 1, 1), ("add_char", 1)])
                     out.append(pre + [(m, s, L + 1, 0), ("add_char", 1)])
+    # ... nor on the AMOUNT of padding: short strings padded to every ladder width (and one short of / beyond it)
+    for W in LADDER:
+        for s in ("", "ab", "aÿ"):
+            for mode in (0, 1):
+                for m in ("add_fixed_string", "add_fixed_encoded_string"):
+                    out.append([("mode", mode), ("add_char", 7), (m, s, W, 1), ("add_char", 1)])
+                    out.append([("mode", mode), (m, s, W + len(s), 1), (m, "x" * (W + 1), W, 1), ("add_short", 300)])
     return out
+
+
+def _char_shard(job):
+    """Every string of the character alphabet (mc/charsweep.py) through every string method in both modes, real writer
+    against M4; compared on the final bytes, a mismatch is returned as an ordinary history."""
+    from .. import charsweep
+
+    loader.install_shims()
+    W = loader.lib("eolib.data.eo_writer").EoWriter
+    count, bad = 0, []
+    for s in charsweep.strings(job):
+        n = len(s)
+        for mode in (0, 1):
+            count += 1
+            hist = [("mode", mode), ("add_string", s), ("add_encoded_string", s), ("add_fixed_string", s, n, 0), ("add_fixed_encoded_string", s, n + 2, 1)]
+            ref = RefWriter()
+            ref.san = bool(mode)
+            ref.add_string(s); ref.add_encoded_string(s); ref.add_fixed_string(s, n, False); ref.add_fixed_encoded_string(s, n + 2, True)
+            try:
+                w = W()
+                w.string_sanitization_mode = bool(mode)
+                w.add_string(s); w.add_encoded_string(s); w.add_fixed_string(s, n, False); w.add_fixed_encoded_string(s, n + 2, True)
+                same = bytes(w.to_bytearray()) == bytes(ref.buf)
+            except Exception:  # noqa: BLE001 - the product replay below names the step
+                same = False
+            if not same and len(bad) < 3:
+                what = explorer.replay(WriterProduct(), hist) or "final bytes differ from the reference although every step agreed"
+                bad.append((hist, what))
+    return count, bad
 
 
 TWO_MENU = [("add_char", 252), ("add_char", 253), ("add_three", P4), ("add_string", "ÿ"), ("add_string", "a"), ("add_encoded_string", "ÿ"),
@@ -315,8 +351,18 @@ def run(tier, seed):
         violations.append({"key": "two-writers:" + what.split(": ", 1)[1][:50], "what": f"history {h}: {what}", "case": {"two": [[w, list(op)] for w, op in h]}})
     for canon, what in form_bad:
         violations.append({"key": "argument-form:" + what.split(": ")[-1][:50], "what": what, "case": {"forms": True}})
-    hist += two_n + form_n
+    from .. import charsweep
+
+    res_chars = par.pmap(_char_shard, charsweep.jobs(tier))
+    char_n = sum(r[0] for r in res_chars)
+    for r in res_chars:
+        for h, what in r[1]:
+            cps = "+".join(f"U+{ord(c):04X}" for c in h[1][1])
+            violations.append({"key": f"writer-char:{cps}", "what": f"string {cps} through every string method, mode {h[0][1]}: {what}", "case": {"history": h}})
+    hist += two_n + form_n + char_n
     coverage = {
+        "character_sweep_histories": char_n,
+        "character_sweep_strings": charsweep.total(),
         "argument_form_histories": form_n,
         "two_writer_histories": two_n,
         "long_string_histories": lad_n,
@@ -332,7 +378,7 @@ def run(tier, seed):
         "exhaustive": True,
         "rule": "every history of depth_full over the full menu (5 numeric methods x 21 boundary values incl. every type's limit, "
         "12 strings x all string methods x lengths 0..4 x padded, raw bytes, mode toggles), every history of depth_reduced "
-        "over the reduced menu, and the full menu after 4 two-step prefixes; plus every history of 3 steps over a 12-op menu on TWO writers alive at the same time (each step also re-observes the other writer); plus legal argument forms (padded=1/0, bool and IntEnum numbers, bytearray/memoryview for add_bytes); plus a length ladder (strings of 8..300 characters with a y-diaeresis at start/middle/end through every string method, both modes, exact/padded/wrong widths); after every step the real writer's "
+        "over the reduced menu, and the full menu after 4 two-step prefixes; plus every history of 3 steps over a 12-op menu on TWO writers alive at the same time (each step also re-observes the other writer); plus legal argument forms (padded=1/0, bool and IntEnum numbers, bytearray/memoryview for add_bytes); plus a length ladder (strings of 8..65537 characters with a y-diaeresis at start/middle/end through every string method, both modes, exact/padded/wrong widths; and short strings padded to widths 8..65537); plus the character sweep: every Unicode code point U+0000..U+10FFFF as a one-character string and every (windows-1252 character, combining mark U+0300..U+036F) pair, through all four string methods in both modes; after every step the real writer's "
         "(len, bytes, mode) and accept/ValueError outcome are compared with M4; states = distinct final (buffer, mode) pairs",
         "samples": [{"history": [list(map(_j, o)) for o in h]} for h in ([("mode", 1), ("add_fixed_string", "aÿ", 3, 1)], [("add_three", P4), ("add_char", 252)])],
     }
